@@ -1,7 +1,7 @@
 //! Key-keeper rig checks: C09 (and later C10 C12 C16, the host-reply part of C13, own-call part of C04).
 
 use gpa_verif::keeper::KeeperRig;
-use gpa_verif::props::{c09, c10, c12, c13};
+use gpa_verif::props::{c09, c10, c12, c13, c16};
 use gpa_verif::report::{Known, Params, Stats};
 use gpa_verif::runner::Drive;
 use std::time::Instant;
@@ -36,9 +36,15 @@ fn main() {
         }
         "C10" => {
             gpa_verif::runner::SHRINK_ITERS.store(3000, std::sync::atomic::Ordering::Relaxed);
-            let n = params.share(if th { 400_000 } else { 8_000 });
+            let n = params.share(if th { 600_000 } else { 20_000 });
             Drive { params: &params, stats: &mut stats, known: &known }.run("c10.schedules", 10, c10::strategy(), n, |c, s| c10::eval(&rig, c, s));
             (c10::RULE.into(), assumptions)
+        }
+        "C16" => {
+            gpa_verif::runner::SHRINK_ITERS.store(3000, std::sync::atomic::Ordering::Relaxed);
+            let n = params.share(if th { 1_000_000 } else { 40_000 });
+            Drive { params: &params, stats: &mut stats, known: &known }.run("c16.provision", 16, c16::strategy(), n, |c, s| c16::eval(c, s));
+            (c16::RULE.into(), assumptions)
         }
         "C12" => {
             let env = std::cell::RefCell::new(c12::setup(&rig));
